@@ -30,7 +30,8 @@ fn check(src: &str, inputs: &Inputs, n: u64) -> Out {
         Exec::Rejected(_) | Exec::NoIo => o.discard = Some("not-compilable".into()),
         Exec::Error(s, e) => o.discard = Some(format!("error:{s}:{e}")),
         Exec::Panic(stage, p) => {
-            if p.msg.contains("closure handle used after release") || p.msg.contains("Invalid Closure Id") {
+            if p.msg.contains("closure handle used after release") || p.msg.contains("Invalid Closure Id") || p.msg.contains("Invalid indirect callable") {
+                // (the last one: the heap object behind a callable value no longer exists)
                 o.fail = Some(("c12:stale-closure-handle".into(), format!("{stage}: {}", p.describe())));
             } else {
                 o.discard = Some(format!("crash:{}", panics::normalise(&p.msg))); // C03's subject
